@@ -889,7 +889,7 @@ func (s *State) evalIdentifier(node *ast.Identifier) object.Object {
 }
 
 func (s *State) evalIfExpression(ie *ast.IfExpression) object.Object {
-	condition := s.evalInternal(ie.Condition)
+	condition := object.Value(s.evalInternal(ie.Condition)) // a variable of an outer scope comes as a reference.
 	switch condition {
 	case object.TRUE:
 		if log.LogVerbose() {
@@ -1098,7 +1098,7 @@ func (s *State) evalForExpression(fe *ast.ForExpression) object.Object {
 	var lastEval object.Object
 	lastEval = object.NULL
 	for {
-		condition := s.evalInternal(fe.Condition)
+		condition := object.Value(s.evalInternal(fe.Condition)) // a variable of an outer scope comes as a reference.
 		switch condition {
 		case object.TRUE:
 			if log.LogVerbose() {
